@@ -69,10 +69,10 @@ func (e *Exec) ioEOF() Value {
 func init() {
 	intrinsics["Archive"] = func(e *Exec, fr *Frame, fn *ssa.Function, a []Value) Value {
 		files := e.deepCopy(a[0], map[*Obj]*Obj{}, map[*MapObj]*MapObj{}).(SliceV)
-		arr := e.newObj(ArrayV{}, nil)
+		arr := e.newObj(ArrayV{E: []Value{e.tf.Int(0)}}, nil) // opaque non-empty content
 		arr.Aux = &archiveBlob{files: files}
 		arr.Name = "bytes:archive"
-		return SliceV{Arr: arr}
+		return SliceV{Arr: arr, Len: 1, Cap: 1}
 	}
 	stubs["bytes.NewReader"] = func(e *Exec, fr *Frame, fn *ssa.Function, a []Value) Value {
 		o := e.newObj(StructV{}, nil)
